@@ -300,7 +300,9 @@ def run_property(pid, tier, seed, replay=None):
             samples.append("%s %s%s" % (m.group(1), m.group(2), re.sub(r"\s+", " ", m.group(3))[:700]))
     tb = ["Coq 8.16.1 kernel + vm_compute (no native_compute)", "tools/py2coq.py (syntactic serialiser Python ast -> PyAst)",
           "coq/Base/PySem.v, PyVal.v (meaning given to Python/numpy constructs; validated by correspondence)",
-          "real-number idealisation of binary64 floats; decimal reading of float literals"]
+          "real-number idealisation of binary64 floats; decimal reading of float literals",
+          "coqchk re-checks every module of this development (Py.*, %s.*); the installed libraries (Coq standard library, Interval, Flocq, "
+          "Coquelicot, mathcomp, Bignums) are admitted as compiled by the distribution" % pid]
     tb += ["axiom: " + a for a in sorted(axioms)]
     tb += ["hypothesis: " + h for h in cfg.get("hypotheses", [])]
     ev = dict(property_id=pid, tier=tier, seed=seed, level="proof",
